@@ -286,7 +286,7 @@ def replay(ll_path, cfg, cex, module=None):
 
 def validate_witnesses(ll_path, cfg, res, limit=3):
     """replay witness models concretely through the IR interpreter: the witness must be reached and no check may fire"""
-    n = 0; bad = []
+    n = 0; bad = []; res['native_inputs'] = None
     m = load_module(ll_path)
     for q in res.get('queries', []):
         if not q['name'].startswith('witness') or 'sample' not in q or n >= limit: continue
@@ -297,6 +297,7 @@ def validate_witnesses(ll_path, cfg, res, limit=3):
             wid = q['name'].split(':')[1]
             ok = ok and any(str(k) == wid and g is True for k, g in X.e.witness.items())
         n += 1
+        if q['name'] == 'witness:complete' and ok: res['native_inputs'] = X.e.input_order
         if not ok: bad.append(dict(query=q['name'], cviol=X.e.cviol[:3]))
     return n, bad
 
